@@ -329,5 +329,56 @@ pub(crate) fn run(seed: u64, n: u64, out: &mut Out) {
                 }
             }
         }
+        // ---- the RPC holds the global lock while a handler starts: the handler may only look at sync progress once it has the lock ----
+        // (set_scripts is done here the way BlockFilterRpcImpl::set_scripts does it: update_filter_scripts and the clearing of the
+        // in-memory map under the matched-blocks write lock; the handler is started while the lock is held and can only wait)
+        for (ia, a) in acts.iter().enumerate() {
+            if !(*a == Act::Filters || *a == Act::Block || *a == Act::Fork) || n_writes[ia] == 0 { continue; }
+            let serial = |first: Act, second: Act| -> Option<String> {
+                let prep = prepare_w(&plan, false)?;
+                let (parts, mut slots, w) = split(prep);
+                let mut po = Some(parts);
+                let r1 = take_runner(&mut po, first, &mut slots)?;
+                let r2 = take_runner(&mut po, second, &mut slots)?;
+                let (tx, rx) = channel();
+                std::thread::spawn(move || { let a = r1.go(); let b = r2.go(); let _ = tx.send(a && b); });
+                rx.recv_timeout(Duration::from_secs(10)).ok()?;
+                let p = po.unwrap();
+                let chains = (w.main.chain.headers.iter().map(|h| (h.hash(), h.number())).collect::<Vec<_>>(), w.fork.chain.headers.iter().map(|h| (h.hash(), h.number())).collect::<Vec<_>>());
+                let numbers = move |h: &packed::Byte32| chains.0.iter().chain(chains.1.iter()).find(|x| &x.0 == h).map(|x| x.1);
+                Some(snapshot(&p.storage, &p.peers, &p.pool, &numbers))
+            };
+            let (ab, ba) = match (serial(*a, Act::SetScripts), serial(Act::SetScripts, *a)) { (Some(x), Some(y)) => (x, y), _ => continue };
+            let prep = match prepare_w(&plan, false) { Some(p) => p, None => continue };
+            let (parts, mut slots, w) = split(prep);
+            let mut po = Some(parts);
+            let ra = match take_runner(&mut po, *a, &mut slots) { Some(x) => x, None => continue };
+            let p = po.unwrap();
+            let mut problems: Vec<String> = Vec::new();
+            let (tx_a, rx_a) = channel::<bool>();
+            let mut finished_early = false;
+            {
+                let mut guard = p.peers.matched_blocks().write().expect("poisoned");
+                std::thread::spawn(move || { let ok = ra.go(); let _ = tx_a.send(ok); });
+                match rx_a.recv_timeout(Duration::from_millis(300)) { Ok(ok) => { finished_early = true; if !ok { problems.push(format!("[C10-handler-panic] {} panicked: {}", a.name(), super::last_panic())); } } Err(_) => {} }
+                p.storage.update_filter_scripts(vec![crate::storage::ScriptStatus { script: p.pool[2].clone(), script_type: ScriptType::Lock, block_number: p.set_start }], crate::storage::SetScriptsCommand::Partial);
+                guard.clear();
+            }
+            if !finished_early {
+                match rx_a.recv_timeout(Duration::from_secs(6)) { Ok(true) => {} Ok(false) => problems.push(format!("[C10-handler-panic] {} panicked: {}", a.name(), super::last_panic())), Err(_) => problems.push(format!("[C17-deadlock] {} does not finish after the lock was released", a.name())) }
+            }
+            let chains = (w.main.chain.headers.iter().map(|h| (h.hash(), h.number())).collect::<Vec<_>>(), w.fork.chain.headers.iter().map(|h| (h.hash(), h.number())).collect::<Vec<_>>());
+            let numbers = move |h: &packed::Byte32| chains.0.iter().chain(chains.1.iter()).find(|x| &x.0 == h).map(|x| x.1);
+            if problems.is_empty() {
+                let got = snapshot(&p.storage, &p.peers, &p.pool, &numbers);
+                if got != ab && got != ba {
+                    problems.push(format!("[C17-not-serializable][C09-set-scripts-interleaved] {} was started while set_scripts held the global lock ({}): the outcome is neither that of {};set_scripts nor of set_scripts;{} || outcome: {} || {};set_scripts: {} || set_scripts;{}: {}",
+                        a.name(), if finished_early { "it finished without waiting for the lock" } else { "it waited" }, a.name(), a.name(), got, a.name(), ab, a.name(), ba));
+                }
+            }
+            let oracle = if problems.is_empty() { Ok(()) } else { Err(problems.join(" || ")) };
+            out.case(&format!("locked-start-{}-{}", world, a.name()), &["interleaving", "started-under-held-lock", a.name(), if finished_early { "did-not-wait" } else { "waited" }], "(VN 1)", &Val::n(1), oracle,
+                &format!("world {}: set_scripts holds the global lock, {} is started, set_scripts completes and releases", world, a.name()));
+        }
     }
 }
